@@ -64,7 +64,9 @@ def check_trace(trace, n, batch_size, max_iter, categorical, A_full, same):
     return out
 
 
-def job(family, shape, gemini, batch_size, max_iter, perms, mlcl=False):
+def job(family, shape, gemini, batch_size, max_iter, perms, mlcl=False, precomputed=False, refit_from=None):
+    """precomputed: the affinity is a user matrix handed over as y (kernel='precomputed'); it is NOT assumed symmetric, so that rows and
+    columns of every block must both follow the order of the batch"""
     loader.install()
     res = {"paths": 0, "queries": 0, "obligations": [], "violations": [], "validated": 0, "witnesses": 0, "samples": []}
     dm = cm.dims(family, shape)
@@ -81,11 +83,17 @@ def job(family, shape, gemini, batch_size, max_iter, perms, mlcl=False):
             counter = {"i": 0}
 
             def next_perm(m):
+                if seq and m != len(seq[0]):
+                    return list(range(m))[::-1]       # a fit on another dataset (the refit jobs): not the one under scrutiny
                 p = seq[counter["i"] % len(seq)]
                 counter["i"] += 1
                 return list(p)
             env.next_perm = next_perm
             box["env"] = env
+            if precomputed:
+                gm = loader.load("gemini")
+                env.mdl.gemini = gm.MMDGEMINI(kernel="precomputed")
+                env.y = harness.free_matrix(n, n, "pre")
             if mlcl:
                 # record the indices the decoration exposes at the time the gradients are computed
                 inner = env.mdl._compute_grads
@@ -98,11 +106,22 @@ def job(family, shape, gemini, batch_size, max_iter, perms, mlcl=False):
             return env
 
         def body(env):
+            if refit_from:
+                # the same (possibly decorated) estimator was fitted on a SHORTER dataset before: nothing sized by that fit may survive
+                X_keep, n_keep = env.X, env.n
+                env.X, env.n = harness.free_matrix(refit_from, X_keep.shape[1], "small"), refit_from
+                env.run_fit()
+                env.X, env.n = X_keep, n_keep
+                env.steps.clear(); env.gem_calls.clear(); env.infer_calls.clear()
+                if hasattr(env, "affinity_log"):
+                    env.affinity_log = []
+                if mlcl:
+                    env.recorded_indices.clear()
             env.run_fit()
             return env
 
         ex = Explorer(max_paths=400)
-        tagbase = f"{family}/{cm.shape_str(shape)}/{gemini}/bs{batch_size}/it{max_iter}{'/mlcl' if mlcl else ''}/perm{'-'.join(''.join(map(str, p)) for p in perm_seq)}"
+        tagbase = f"{family}/{cm.shape_str(shape)}/{gemini}/bs{batch_size}/it{max_iter}{'/mlcl' if mlcl else ''}{'/precomputed' if precomputed else ''}{'/refit-from-n%d' % refit_from if refit_from else ''}/perm{'-'.join(''.join(map(str, p)) for p in perm_seq)}"
         first = True
         for out, pc, trace in ex.run(body, setup):
             res["paths"] += 1
@@ -113,9 +132,9 @@ def job(family, shape, gemini, batch_size, max_iter, perms, mlcl=False):
                 continue        # the remaining paths only differ in the final arg-max of labels_
             first = False
             env = out
-            A_full = None
+            A_full = env.y if precomputed else None
             for rec in getattr(env, "affinity_log", []):
-                if rec["Y"] is None:
+                if rec["Y"] is None and not precomputed:
                     A_full = rec["value"]
             tr = []
             for si, s in enumerate(env.steps):
@@ -127,7 +146,7 @@ def job(family, shape, gemini, batch_size, max_iter, perms, mlcl=False):
             for nm, ok, sig, what in checks:
                 res["obligations"].append({"name": f"{tagbase}/{nm}", "verdict": "unsat" if ok else "sat", "how": "term-identity"})
                 if not ok and sig not in seen:
-                    rep = {"family": family, "shape": list(shape), "gemini": gemini, "batch_size": batch_size, "max_iter": max_iter, "mlcl": mlcl, "expect": sig}
+                    rep = {"family": family, "shape": list(shape), "gemini": gemini, "batch_size": batch_size, "max_iter": max_iter, "mlcl": mlcl, "precomputed": precomputed, "refit_from": refit_from, "expect": sig}
                     got = replay(rep)
                     if got and sig in got:
                         seen.add(sig)
@@ -304,6 +323,8 @@ def replay(rep, verbose=False):
         d = max(dm["d"], 1)
         X = np.arange(n, dtype=float).reshape(-1, 1) * np.ones((1, d)) + np.arange(d) * 0.001
         A = np.array([[100.0 * min(i, j) + max(i, j) + 0.5 for j in range(n)] for i in range(n)])
+        if rep.get("precomputed"):
+            A = np.array([[100.0 * i + j + 0.5 for j in range(n)] for i in range(n)])      # a user matrix need not be symmetric
         trace = []
         calls = {}
 
@@ -360,6 +381,10 @@ def replay(rep, verbose=False):
                     return inner_cg(Xb, yp, g)
                 mdl._compute_grads = cg_spy
             try:
+                if rep.get("refit_from"):
+                    m0 = rep["refit_from"]
+                    mdl.fit(X[:m0] + 50.0, (A[:m0, :m0] if needs_aff else None))
+                    trace.clear()
                 mdl.fit(X, A if needs_aff else None)
             except Exception as e:
                 sigs.add(f"{PROP}:fit-raises")
@@ -422,6 +447,13 @@ def jobs(tier):
                             "kwargs": dict(family="LinearModel", shape=(n_, 1, 2), gemini="mmd_ova", batch_size=bs, max_iter=1, perms=long_perms(n_), mlcl=ml), "timeout": 280 if q else 1800})
         out.append({"name": f"path/SparseLinearModel/{n_}x1x2/bs{bss[1]}/precomputed/long", "target": "checks.c10:job_path",
                     "kwargs": dict(family="SparseLinearModel", shape=(n_, 1, 2), batch_size=bss[1], y_given=True), "timeout": 280 if q else 1800})
+    for fam_, sh_, bs, ml in [("LinearModel", (3, 1, 2), 2, True), ("LinearModel", (3, 1, 2), None, True), ("LinearModel", (3, 1, 2), 2, False), ("CategoricalModel", (3, 2), None, True)]:
+        n_ = cm.dims(fam_, sh_)["n"]
+        out.append({"name": f"{fam_}/{cm.shape_str(sh_)}/mmd_ova/bs{bs}/it1{'/mlcl' if ml else ''}/refit-from-n2", "target": "checks.c10:job",
+                    "kwargs": dict(family=fam_, shape=sh_, gemini="mmd_ova", batch_size=bs, max_iter=1, perms=perms_for(n_, 1), mlcl=ml, refit_from=2), "timeout": 280 if q else 1800})
+    for bs, ml in [(2, False), (None, False), (2, True), (4, False)]:
+        out.append({"name": f"LinearModel/3x1x2/mmd_ova/bs{bs}/it1{'/mlcl' if ml else ''}/precomputed", "target": "checks.c10:job",
+                    "kwargs": dict(family="LinearModel", shape=(3, 1, 2), gemini="mmd_ova", batch_size=bs, max_iter=1, perms=perms_for(3, 1), mlcl=ml, precomputed=True), "timeout": 280 if q else 1800})
     for fam, sh, gem, bs, it, ml in configs:
         n = cm.dims(fam, sh)["n"]
         out.append({"name": f"{fam}/{cm.shape_str(sh)}/{gem}/bs{bs}/it{it}{'/mlcl' if ml else ''}", "target": "checks.c10:job",
